@@ -73,12 +73,27 @@ func (s *serverSocket) checkMiddlewareFunc(rv reflect.Value) error {
 	return nil
 }
 
-func (s *serverSocket) callMiddlewares(values []reflect.Value) error {
+// Middlewares have the signature func(eventName string, v []any) error:
+// they are given the event's name and the arguments decoded for the handler.
+func (s *serverSocket) callMiddlewares(eventName string, values []reflect.Value) error {
 	s.middlewareFuncsMu.RLock()
 	defer s.middlewareFuncsMu.RUnlock()
 
+	if len(s.middlewareFuncs) == 0 {
+		return nil
+	}
+	v := make([]any, 0, len(values))
+	for _, value := range values {
+		if value.Kind() == reflect.Func || !value.CanInterface() {
+			// The acknowledgement function is not an argument of the event.
+			continue
+		}
+		v = append(v, value.Interface())
+	}
+	args := []reflect.Value{reflect.ValueOf(eventName), reflect.ValueOf(v)}
+
 	for _, f := range s.middlewareFuncs {
-		err := s.callMiddlewareFunc(f, values)
+		err := s.callMiddlewareFunc(f, args)
 		if err != nil {
 			return err
 		}
